@@ -356,6 +356,26 @@ func Run(req *fnv1.RunFunctionRequest) *fnv1.RunFunctionResponse {
 			} else {
 				rsp.Desired.Composite.ConnectionDetails[str(op["key"])] = []byte(str(op["value"]))
 			}
+		case "sharedName": // desired resources of different kinds are given one explicit metadata.name
+			xn, _ := getPath(xr, "metadata.name")
+			for _, n := range []string{"a", "g1", "strict"} { // a Thing, a Gadget, a Strict
+				if r, ok := rsp.Desired.Resources[n]; ok && r.Resource != nil && len(r.Resource.GetFields()) > 0 {
+					setMeta(r.Resource, "name", str(xn)+"-shared")
+				}
+			}
+		case "copyObserved": // a desired entry built as a copy of an observed resource, annotations included
+			if or, ok := req.GetObserved().GetResources()[str(op["from"])]; ok {
+				m := or.GetResource().AsMap()
+				md, _ := m["metadata"].(map[string]any)
+				nm := map[string]any{}
+				if a, ok := md["annotations"]; ok {
+					nm["annotations"] = a
+				}
+				c := map[string]any{"apiVersion": m["apiVersion"], "kind": m["kind"], "metadata": nm, "spec": m["spec"]}
+				if st, err := structpb.NewStruct(c); err == nil {
+					rsp.Desired.Resources[str(op["to"])] = &fnv1.Resource{Resource: st}
+				}
+			}
 		case "connDrop": // a later step takes a connection detail out of the desired XR again
 			if rsp.Desired.Composite != nil {
 				delete(rsp.Desired.Composite.ConnectionDetails, str(op["key"]))
